@@ -30,8 +30,9 @@ def plan(tier, seed):
     n = 48 if tier == 'quick' else 400
     return [{'kind': 'chains', 'count': 48 if tier == 'quick' else 64, 'weight': 3} for _ in range(n)] + \
            [{'kind': 'profile', 'weight': 3} for _ in range(8 if tier == 'quick' else 24)] + \
-           [{'kind': 'sweep', 'lengths': (0, 1, 2, 3) if tier == 'quick' else (0, 1, 2, 3, 4), 'slice': i, 'nslices': 32, 'rep': rep,
-             'both_roles': tier != 'quick', 'weight': 3} for rep in range(1 if tier == 'quick' else 2) for i in range(32)]
+           [{'kind': 'sweep', 'lengths': (0, 1, 2, 3) if tier == 'quick' else (0, 1, 2, 3, 4), 'slice': i, 'nslices': 64, 'rep': rep,
+             'pair_lengths': (1,) if tier == 'quick' else (0, 1, 2), 'both_roles': tier != 'quick', 'weight': 3}
+            for rep in range(1 if tier == 'quick' else 2) for i in range(64)]
 
 
 def worker_init(ctx):
@@ -408,12 +409,21 @@ def u_sweep(ctx, u):
             for pos in range(npos):
                 for d in DEFECTS:
                     jobs.append((n_inter, tlcp, pos, d))
+    # two defects on one certificate (one may switch off the enforcement of the other: a non-critical flag, an absent
+    # extension, a version): every unordered pair at every position of the chains of pair_lengths
+    for n_inter in u.get('pair_lengths', ()):
+        for pos in range(n_inter + 3):
+            for a in range(len(DEFECTS)):
+                for b in range(a + 1, len(DEFECTS)):
+                    tlcp = pos == n_inter + 2 or (a + b + pos) % 3 == 0
+                    jobs.append((n_inter, tlcp, pos, (DEFECTS[a], DEFECTS[b])))
     mine = [j for i, j in enumerate(jobs) if i % u['nslices'] == u['slice']]
     for k, (n_inter, tlcp, pos, d) in enumerate(mine):
         role = ('server', 'client')[(k + u.get('rep', 0)) % 2] if not u.get('both_roles') else None
+        forced = [(d, pos)] if isinstance(d, str) else [(d[0], pos), (d[1], pos)]
         for r in ((role,) if role else ('server', 'client')):
-            one_case(ctx, 'c07s-%d-%d' % (u['_i'], k), n_inter, 0, tlcp, stats, forced=[(d, pos)], role=r, depth=max(n_inter, 4))
-            ctx.stat('sweep_cases')
+            one_case(ctx, 'c07s-%d-%d' % (u['_i'], k), n_inter, 0, tlcp, stats, forced=forced, role=r, depth=max(n_inter, 4))
+            ctx.stat('sweep_cases' if isinstance(d, str) else 'sweep_pair_cases')
     ctx.sample({'kind': 'sweep', 'jobs_in_slice': len(mine), 'first': mine[:3]})
 
 
